@@ -99,6 +99,20 @@ def gen_field(rng, regime, force=None):
         pmin = [Fraction(rng.randint(-40, 40), 2 ** rng.randint(0, 2)) * rng.choice([1, 1, 1, 16]) for _ in range(ndim)]
         pmax = [a + k * c for a, k, c in zip(pmin, n, cell)]
         lo, hi = [float(x) for x in pmin], [float(x) for x in pmax]
+        if ndim == 3 and rng.random() < 0.2:
+            # corner points given as Python ints, two cells per unit along some axes: vertices and centres are not integers
+            ie = [rng.randint(1, 3) for _ in range(ndim)]
+            fac = [rng.choice([1, 2, 2]) for _ in range(ndim)]
+            while int(np.prod([e * f for e, f in zip(ie, fac)])) > 60:
+                k = max(range(ndim), key=lambda i: ie[i] * fac[i])
+                if ie[k] > 1:
+                    ie[k] -= 1
+                else:
+                    fac[k] = 1
+            n = [e * f for e, f in zip(ie, fac)]
+            ip = [rng.randint(-9, 9) for _ in range(ndim)]
+            lo, hi = [float(a) for a in ip], [float(a + e) for a, e in zip(ip, ie)]
+            force = dict(force, intc=True)
     else:
         scale = 10.0 ** rng.randint(-9, 3)
         edge = [scale * rng.choice([1.0, 1 / 3, 0.7, 2.5, 10.0]) * rng.uniform(0.5, 2) for _ in range(ndim)]
@@ -127,7 +141,7 @@ def gen_field(rng, regime, force=None):
                 units=([rng.choice(UNITS) for _ in range(ndim)] if rng.random() < 0.3 else None),
                 nvdim=nvdim, vdims=vd, density=rng.choice([1.0, 1.0, 0.8, 0.5, 0.2, 0.0]), subs=subs,
                 unit=rng.choice([None, None, "A/m", "T"]), reps=reps, save=rng.random() < 0.85,
-                pyth=rng.random() < 0.3, sub=rng.getrandbits(32))
+                pyth=rng.random() < 0.3, sub=rng.getrandbits(32), intc=bool(force.get("intc")))
 
 
 def gen_legacy(rng, regime):
@@ -245,6 +259,8 @@ def build_mesh(c):
         kw["dims"] = c["dims"]
     if c.get("units"):
         kw["units"] = c["units"]
+    if c.get("intc"):
+        p1, p2 = [int(x) for x in p1], [int(x) for x in p2]
     region = df.Region(p1=tuple(p1), p2=tuple(p2), **kw)
     mesh = df.Mesh(region=region, n=tuple(c["n"]))
     if c.get("subs"):
